@@ -29,7 +29,11 @@ func NewMemoryState[T public_types.PersistentType]() public_types.SharedStateI[T
 }
 
 func (p *memoryState[T]) WithClock(clock clock.Clock) public_types.SharedStateI[T] {
+	// a shared state that is already in use can get its clock again (every new
+	// quota group of a fixed window passes the window's state through here)
+	p.mutex.Lock()
 	p.clock = clock
+	p.mutex.Unlock()
 	return p
 }
 
